@@ -12,8 +12,8 @@ import re
 from typing import Dict, List, Optional, Tuple
 
 from ..defuse import assignments, call_arg, is_reassigned
-from ..model import AnalysisError, Func, Program, norm, short, walk_own, pipeline_calls
-from ..pathcond import And, Lit, Not, Or, PathAnalysis, entails, show, show_text
+from ..model import AnalysisError, Func, Program, norm, short, walk_own, walk_body, pipeline_calls
+from ..pathcond import plain, And, Lit, Not, Or, PathAnalysis, entails, show, show_text
 from ..report import Result
 
 ANCHORS = [("processing", "_apply_rewrites"), ("processing", "_replace_nodes"), ("fixes", "fix_import_spacing")]
@@ -181,7 +181,8 @@ def check(prog: Program, tier: str) -> Result:
             "returns True only after ast.parse of its argument succeeded. R3.3 enumerates which pipeline stages have the "
             "safe-text summary and which are direct editors (reported, not judged). (R3.5) position-based splices applied in a loop "
             "to the text they were computed for run back to front (descending sort by the position the splice uses). (R3.6) a line inserted at an "
-            "index found by prefix tests on the lines (not from the syntax tree) is only returned validated. Not decided: that direct editors "
+            "index found by prefix tests on the lines (not from the syntax tree) is only returned validated. (R3.7) the rollback points for whole "
+            "modules also consult an oracle that calls the COMPILER, relative to the input. Not decided: that direct editors "
             "and layout stages produce parsable text (a runtime property of text)."),
         rule_text=("instances = return statements of the anchor back-ends, write sites of the file entry points, return "
                    "statements of is_valid_python, calls of rule functions in the pipeline; an instance is non-trivial "
@@ -285,9 +286,81 @@ def check(prog: Program, tier: str) -> Result:
     res.floors["R3.2"] = 2
     _r3_5(prog, res)
     _r3_6(prog, res, st)
+    _r3_7(prog, res)
     res.analysed.update({"anchor_functions": [f.fq for f in anchors], "pipeline_stages": len(pipeline_fns),
                          "safe_text_summaries": {f"{k[0]}.{k[1]}": v for k, v in sorted(st.summary.items())}})
     return res
+
+
+def _r3_7(prog: Program, res: Result) -> None:
+    """ast.parse accepts texts the COMPILER rejects: `return` outside a function (a replacement pasted at column 0),
+    `yield` inside a comprehension, two parameters of one name, a `__future__` import that is no longer first, `nonlocal`
+    without a binding.  Such a file cannot be imported.  The final rollback points for WHOLE modules - the two scheduled
+    back-ends and the file writer - must therefore also consult an oracle that calls the compiler, relative to the
+    input (snippets that never compiled, e.g. a bare `return x` handed to a rule, must still be rewritable): the text
+    handed on is reached only under `compiles(new)` or `not compiles(input)`."""
+    # compile oracles: one text parameter, compile(<param>, .., 'exec') in a try whose SyntaxError handler answers False
+    oracles = {}
+    for f in prog.funcs.values():
+        if len(f.posparams) != 1:
+            continue
+        for c in prog.calls_in(f):
+            if isinstance(c.func, ast.Name) and c.func.id == "compile" and len(c.args) >= 3 and norm(c.args[0]) == f.posparams[0] \
+                    and isinstance(c.args[2], ast.Constant) and c.args[2].value == "exec":
+                from ..evaluator import caught as _caught
+                h = _caught(c, f, "SyntaxError")
+                if h is not None and any(isinstance(r, ast.Return) and isinstance(r.value, ast.Constant) and r.value.value is False for r in walk_body(h.body)):
+                    oracles[f.key] = f
+    sites = []
+    for m, q in (("processing", "_apply_rewrites"), ("processing", "_replace_nodes")):
+        fn = prog.func(m, q)
+        p0 = fn.posparams[0]
+        for r in walk_own(fn.node):
+            if isinstance(r, ast.Return) and isinstance(r.value, ast.Name) and r.value.id != p0:
+                sites.append((fn, r, r.value.id, p0, f"return {r.value.id}"))
+    wf = prog.func("main", "format_file")
+    for site, written in _write_sites(prog, wf):
+        if isinstance(written, ast.Name):
+            # the text read from the file is the input
+            init = None
+            for a in walk_own(wf.node):
+                if isinstance(a, ast.Assign) and isinstance(a.targets[0], ast.Name) and isinstance(a.value, ast.Call) and isinstance(a.value.func, ast.Attribute) \
+                        and a.value.func.attr == "read":
+                    init = a.targets[0].id
+            sites.append((wf, site, written.id, init, f"write of {written.id}"))
+    for fn, node, new, old, text in sites:
+        if not oracles:
+            res.bad("R3.7", fn.loc(node), fn.fq, text,
+                    "no oracle of the package calls the compiler: the text handed on was only parsed; `return` outside a function, `yield` in a comprehension, "
+                    "duplicate parameters, a misplaced __future__ import pass the check and the module can no longer be imported")
+            continue
+        pa = PathAnalysis(prog, fn)
+        worlds = pa.worlds_at(node)
+        names = [o.name for o in oracles.values()]
+
+        def ok_world(w) -> bool:
+            for f_ in w.facts:
+                if f_[0] != "lit":
+                    continue
+                t = plain(f_[1]).replace("core.", "")
+                for on in names:
+                    if f_[2] and t.startswith(f"{on}({new}"):
+                        return True
+                    if not f_[2] and old is not None and t.startswith(f"{on}({old}"):
+                        return True
+            # disjunction `not compiles(old) or compiles(new)` kept as one fact
+            from ..pathcond import show
+            for f_ in w.facts:
+                if f_[0] == "or":
+                    t = plain(show(f_)).replace("core.", "")
+                    if any(f"{on}({new}" in t for on in names) and (old is None or any(f"not {on}({old}" in t for on in names)):
+                        return True
+            return False
+        ok = bool(worlds) and all(ok_world(w) for w in worlds)
+        res.decide(ok, "R3.7", fn.loc(node), fn.fq, text,
+                   f"reached only when the compiler accepts '{new}' or did not accept the input either ({', '.join(names)})" if ok else
+                   f"'{new}' is handed on after a parse-only check: a text that parses but does not compile replaces a module that did")
+    res.floors["R3.7"] = 2
 
 
 def _r3_6(prog: Program, res: Result, st) -> None:
@@ -654,6 +727,11 @@ def _sub_summary(prog: Program, st: SafeText) -> str:
 from ..selftest import Variant  # noqa: E402
 
 VARIANTS = [
+    Variant("scheduled-results-only-parsed", "FIRE", "processing",
+            "    if core.is_compilable(source) and not core.is_compilable(new_source):\n        return source  # For example a return that ended up outside of its function\n\n    return new_source\n\n\ndef fix(", "    return new_source\n\n\ndef fix(", "R3.7"),
+    Variant("compile-check-not-relative-to-the-input", "SILENT", "processing",
+            "    if core.is_compilable(source) and not core.is_compilable(new_source):\n        return source  # For example a return that ended up outside of its function\n\n    return new_source\n\n\ndef fix(",
+            "    if not core.is_compilable(new_source) and core.is_compilable(source):\n        return source\n\n    return new_source\n\n\ndef fix("),
     Variant("import-insertion-line-from-line-prefixes", "FIRE", "fixes",
             "    lineno = len(lines)\n    last_skipped_lineno = 0\n    for i, node in enumerate(core.parse(source).body):\n        is_docstring = i == 0 and core.match_template(node, ast.Expr(value=ast.Constant(value=str)))\n        is_future_import = isinstance(node, ast.ImportFrom) and node.module == \"__future__\"\n        if is_docstring or is_future_import:\n            last_skipped_lineno = node.end_lineno\n            continue\n\n        # If it shares its first line with e.g. the docstring, it is better to go after it\n        lineno = node.lineno - 1 if node.lineno > last_skipped_lineno else node.end_lineno\n        break\n    else:\n        lineno = last_skipped_lineno\n",
             "    lineno = next(i for i, line in enumerate(lines) if not line.startswith(\"#\") and not line.startswith(\"from __future__ import\"))\n", "R3.6"),
@@ -671,20 +749,20 @@ VARIANTS = [
             "    new_source = _substitute_original_fstrings(original_source, new_source)\n\n    if not core.is_valid_python(new_source):\n        return source\n",
             "    new_source = _substitute_original_fstrings(original_source, new_source)\n", "R3.1"),
     Variant("replace-nodes-guard-flipped", "FIRE", "processing",
-            "    if not core.is_valid_python(new_source):\n        return source\n\n    return new_source\n\n\ndef _insert_nodes",
-            "    if core.is_valid_python(new_source):\n        return source\n\n    return new_source\n\n\ndef _insert_nodes", "R3.1"),
+            "    if not core.is_valid_python(new_source):\n        return source\n\n    if core.is_compilable(source) and not core.is_compilable(new_source):\n        return source  # For example a return that ended up outside of its function\n\n    return new_source\n\n\ndef _insert_nodes",
+            "    if core.is_valid_python(new_source):\n        return source\n\n    if core.is_compilable(source) and not core.is_compilable(new_source):\n        return source  # For example a return that ended up outside of its function\n\n    return new_source\n\n\ndef _insert_nodes", "R3.1"),
     Variant("import-spacing-returns-unchecked", "FIRE", "fixes",
             "    if core.is_valid_python(new_source):\n        return new_source\n\n    return source\n",
             "    if core.is_valid_python(source):\n        return new_source\n\n    return source\n", "R3.1"),
     Variant("write-guard-drops-validity", "FIRE", "main",
-            "    if source != initial_content and (\n        core.is_valid_python(source) or not core.is_valid_python(initial_content)\n    ):",
+            "    if (\n        source != initial_content\n        and (core.is_valid_python(source) or not core.is_valid_python(initial_content))\n        and (core.is_compilable(source) or not core.is_compilable(initial_content))\n    ):",
             "    if source != initial_content:", "R3.2"),
     Variant("write-guard-drops-changed", "FIRE", "main",
-            "    if source != initial_content and (\n        core.is_valid_python(source) or not core.is_valid_python(initial_content)\n    ):",
-            "    if (\n        core.is_valid_python(source) or not core.is_valid_python(initial_content)\n    ):", "R3.2"),
+            "        source != initial_content\n        and (core.is_valid_python(source)",
+            "        (core.is_valid_python(source)", "R3.2"),
     Variant("write-guard-validity-of-wrong-text", "FIRE", "main",
-            "        core.is_valid_python(source) or not core.is_valid_python(initial_content)\n",
-            "        core.is_valid_python(initial_content) or not core.is_valid_python(initial_content)\n", "R3.2"),
+            "        and (core.is_valid_python(source) or not core.is_valid_python(initial_content))\n",
+            "        and (core.is_valid_python(initial_content) or not core.is_valid_python(initial_content))\n", "R3.2"),
     Variant("pattern-cli-writes-unconditionally", "FIRE", "pattern_matching",
             "            if new_source != source:\n                filename.write_text(new_source)",
             "            if new_source:\n                filename.write_text(new_source)", "R3.2"),
@@ -695,17 +773,17 @@ VARIANTS = [
             "                source = _apply_rewrites(source, scheduled_rewrites)\n\n                if source in history:\n                    break\n\n            return source\n\n        wrapper._fix_func",
             "                for _, (_, rewrite) in scheduled_rewrites:\n                    source = _do_rewrite(source, rewrite)\n\n                if source in history:\n                    break\n\n            return source\n\n        wrapper._fix_func", "R3.1"),
     Variant("conditional-expression-return", "SILENT", "processing",
-            "    if not core.is_valid_python(new_source):\n        return source\n\n    return new_source\n\n\ndef _insert_nodes",
-            "    return new_source if core.is_valid_python(new_source) else source\n\n\ndef _insert_nodes"),
+            "    if not core.is_valid_python(new_source):\n        return source\n\n    if core.is_compilable(source) and not core.is_compilable(new_source):\n        return source  # For example a return that ended up outside of its function\n\n    return new_source\n\n\ndef _insert_nodes",
+            "    if core.is_compilable(source) and not core.is_compilable(new_source):\n        return source\n\n    return new_source if core.is_valid_python(new_source) else source\n\n\ndef _insert_nodes"),
     Variant("rename-new-source", "SILENT", "fixes",
             "    if core.is_valid_python(new_source):\n        return new_source\n\n    return source\n",
             "    result = new_source\n    if core.is_valid_python(result):\n        return result\n\n    return source\n"),
     Variant("hoist-test-into-local", "SILENT", "processing",
-            "    if not core.is_valid_python(new_source):\n        return source\n\n    return new_source\n\n\ndef _insert_nodes",
-            "    ok = core.is_valid_python(new_source)\n    if not ok:\n        return source\n\n    return new_source\n\n\ndef _insert_nodes"),
+            "    if not core.is_valid_python(new_source):\n        return source\n\n    if core.is_compilable(source) and not core.is_compilable(new_source):\n        return source  # For example a return that ended up outside of its function\n\n    return new_source\n\n\ndef _insert_nodes",
+            "    ok = core.is_valid_python(new_source)\n    if not ok:\n        return source\n\n    if core.is_compilable(source) and not core.is_compilable(new_source):\n        return source  # For example a return that ended up outside of its function\n\n    return new_source\n\n\ndef _insert_nodes"),
     Variant("write-guard-nested-ifs", "SILENT", "main",
-            "    if source != initial_content and (\n        core.is_valid_python(source) or not core.is_valid_python(initial_content)\n    ):\n        with open(filename, \"w\", encoding=\"utf-8\") as stream:\n            stream.write(source)\n\n        return True\n",
-            "    if source == initial_content:\n        return 0\n    if core.is_valid_python(source) or not core.is_valid_python(initial_content):\n        with open(filename, \"w\", encoding=\"utf-8\") as stream:\n            stream.write(source)\n\n        return True\n"),
+            "    if (\n        source != initial_content\n        and (core.is_valid_python(source) or not core.is_valid_python(initial_content))\n        and (core.is_compilable(source) or not core.is_compilable(initial_content))\n    ):\n        with open(filename, \"w\", encoding=\"utf-8\") as stream:\n            stream.write(source)\n\n        return True\n",
+            "    if source == initial_content:\n        return 0\n    if (core.is_valid_python(source) or not core.is_valid_python(initial_content)) and (core.is_compilable(source) or not core.is_compilable(initial_content)):\n        with open(filename, \"w\", encoding=\"utf-8\") as stream:\n            stream.write(source)\n\n        return True\n"),
 ]
 
 META = {
